@@ -7,10 +7,13 @@ Model of the tuning loop `syne_tune/tuner.py: Tuner.run` (with `_process_new_res
 `StoreResultsCallback.on_trial_result / on_tuning_end` (`results_callback.py`) and of
 `RemoveCheckpointsCallback.on_loop_end` (`callbacks/remove_checkpoints_callback.py`).
 
-Shape: a machine  `step : LState → Ans → LState × Call`.  The loop *calls* its environment
-(backend, scheduler, the user's callbacks, the wall clock of the stopping criterion); every
-call is answered by the environment (`Ans`): it returns (`ret` or a value) or it raises
-(`raise`) — so every call is an exception point.  The Python frames' local variables
+Shape: a small-step machine `next : LState → Ans → LState`.  A control point (`Pc`) is either
+*calling* — the loop has issued a call to its environment (backend, scheduler, the user's
+callbacks, the wall clock of the stopping criterion) and waits for the answer `Ans`, which is
+a return (`ret` or a value) or an exception (`raise`): every call is an exception point — or
+*silent* — the loop computes without talking to anybody (the answer fed to a silent step is
+ignored).  The call that is pending in a state is a function of the state (`pending`;
+`Call.tau` at silent control points).  The Python frames' local variables
 (`trial_status_dict`, `new_results`, `done_trials`, the loop counters, the *local*
 `running_trials_ids` of `_schedule_new_tasks`) are registers of the state.
 `save_tuner=False`, the status printer never fires (its period is an input of the harness).
@@ -42,7 +45,7 @@ inductive Ans
   | raise
   | poll (sd : List (Nat × St)) (res : List Res)   -- `fetch_status_results`
   | decision (d : Decision) (m : Option Metrics)   -- `on_trial_result`; `m`: the result dict if the scheduler changed it
-  | ids (l : List Nat)                             -- `busy_trial_ids`, `trials_checkpoints_can_be_removed`
+  | ids (l : List Nat)                             -- `busy_trial_ids`, `trials_checkpoints_can_be_removed`, `_all_trial_results`
   | sugg (s : Sugg)                                -- `suggest`
   | clock (t : Rat)                                -- `status.wallclock_time`
   | status (st : St)                               -- reading `trial.status` in `stop_all`
@@ -57,8 +60,9 @@ inductive CbEv
   | resume (t : Nat)
 deriving DecidableEq, Repr, Inhabited
 
-/-- calls made by the loop. -/
+/-- calls made by the loop (`tau`: none). -/
 inductive Call
+  | tau
   | cb (e : CbEv)
   | clock
   | fetch (ids : List Nat)
@@ -105,8 +109,9 @@ inductive Raised
   | failed (t : Nat)    -- `ValueError("Trial - t failed")`
 deriving DecidableEq, Repr, Inhabited
 
-/-- control points: the call whose answer is awaited. -/
+/-- control points. Calling ones are named after the call whose answer is awaited. -/
 inductive Pc
+  -- calling
   | tuningStart | clock | loopStart | fetch | cbFetch
   | decision | cbResult | stopCmd | stopDel | removeS | pauseCmd | removeP
   | stdoutNM | stderrNM | completeS | completeCb | errorS
@@ -115,6 +120,19 @@ inductive Pc
   | loopEnd | removable | delRem
   | finTuningEnd | finAll | finStatus | finStop | finStopDel | finDel | hfOut | hfErr
   | done
+  -- silent
+  | evalStop      -- `_stop_condition()`
+  | loopHead      -- the `while` test
+  | nextRes       -- head of `for trial_id, result in new_results`
+  | second        -- head of `for trial_id, (trial, status) in trial_status_dict.items()`
+  | afterUpd      -- rest of `_process_new_results` and the branch of `run`
+  | schedNew      -- `_schedule_new_tasks`
+  | suggestNext   -- head of `for _ in range(self.n_workers - num_busy_workers)`
+  | delNext       -- head of the loop of `RemoveCheckpointsCallback.on_loop_end`
+  | finStatusNext -- head of the loop of `stop_all`
+  | finDelAll     -- `if self.delete_checkpoints:` of `stop_all`
+  | finDelNext    -- head of `for trial_id in self.trial_ids`
+  | finMark       -- `mark_running_job_as_stopped`, `_handle_failure`
 deriving DecidableEq, Repr, Inhabited
 
 /-- a row of `StoreResultsCallback.results`. -/
@@ -124,6 +142,7 @@ structure Row where
   cfg : Option Nat       -- the trial's configuration at that time
   decision : Decision
   status : St
+  m : Metrics := []      -- the result's values (`copy.copy(result)`)
 deriving DecidableEq, Repr, Inhabited
 
 /-- what the scheduler has been told about a trial. -/
@@ -186,76 +205,62 @@ def dedup : List Nat → List Nat
 
 def hasKey {β} (k : Nat) (l : List (Nat × β)) : Bool := (alookup k l).isSome
 
-/-! ### the `finally` block -/
+/-- the call that is pending in state `s` (`tau` at the silent control points). -/
+def pending (s : LState) : Call :=
+  match s.pc with
+  | .tuningStart => .cb .tuningStart
+  | .clock => .clock
+  | .loopStart => .cb .loopStart
+  | .fetch => .fetch s.running
+  | .cbFetch => .cb .fetch
+  | .decision => .schedResult s.cur.tid s.cur.rid
+  | .cbResult => .cb (.result s.cur.tid s.cur.rid s.curD s.curSt)
+  | .stopCmd => .stop s.cur.tid
+  | .stopDel => .delete s.cur.tid
+  | .removeS => .schedRemove s.cur.tid
+  | .pauseCmd => .pause s.cur.tid
+  | .removeP => .schedRemove s.cur.tid
+  | .stdoutNM => .stdout s.t
+  | .stderrNM => .stderr s.t
+  | .completeS => .schedComplete s.t s.tRid
+  | .completeCb => .cb (.complete s.t s.tRid)
+  | .errorS => .schedError s.t
+  | .sleepWait => .cb .sleep
+  | .busy => .busy
+  | .sleepSched => .cb .sleep
+  | .suggest => .suggest s.nStarted
+  | .startCmd => .start s.sId s.sCfg s.sCkpt
+  | .copyCmd => .copy (s.sCkpt.getD 0) s.sId
+  | .addS => .schedAdd s.sId
+  | .startCb => .cb (.start s.sId)
+  | .resumeCmd => .resume s.sId s.sRCfg
+  | .resumeCb => .cb (.resume s.sId)
+  | .loopEnd => .cb .loopEnd
+  | .removable => .removable
+  | .delRem => .delete s.t
+  | .finTuningEnd => .cb .tuningEnd
+  | .finAll => .allResults
+  | .finStatus => .status s.t
+  | .finStop => .stop s.t
+  | .finStopDel => .delete s.t
+  | .finDel => .delete s.t
+  | .hfOut => .stdout s.t
+  | .hfErr => .stderr s.t
+  | .done => .exit
+  | _ => .tau
 
-def exitNow (s : LState) : LState × Call := ({ s with pc := .done }, .exit)
-
-/-- first trial of `done_trials_statuses` with status failed (`_handle_failure`). -/
-def firstFailed : List (Nat × St) → Option Nat
-  | [] => none
-  | (t, st) :: xs => if st = .failed then some t else firstFailed xs
-
-/-- after `stop_all`: `mark_running_job_as_stopped`, then `_handle_failure` if too many failures. -/
-def finMark (s : LState) : LState × Call :=
-  let s1 := { s with status := s.status.markStopped }
-  if s1.cfg.maxFailures < s1.status.numFailed then
-    match firstFailed s1.doneAll with
-    | some t => ({ s1 with pc := .hfOut, t := t }, .stdout t)
-    | none => exitNow s1
-  else exitNow s1
-
-/-- `for trial_id in self.trial_ids: self.delete_checkpoint(trial_id)` of `stop_all`. -/
-def finDelNext (s : LState) : LState × Call :=
-  match s.dels with
-  | [] => finMark s
-  | t :: rest => ({ s with pc := .finDel, t := t, dels := rest }, .delete t)
-
-def finDelAll (s : LState) : LState × Call :=
-  if s.cfg.deleteCkpt then finDelNext { s with dels := List.range s.nStarted } else finMark s
-
-/-- `for trial in trial_results: if trial.status == in_progress: self.stop_trial(trial.trial_id)`
-of `stop_all`: the status of each trial is read when its turn comes. -/
-def finStatusNext (s : LState) : LState × Call :=
-  match s.dels with
-  | [] => finDelAll s
-  | t :: rest => ({ s with pc := .finStatus, t := t, dels := rest }, .status t)
-
-/-- entering the `finally` block (`print_best_metric_found` prints only): callbacks' `on_tuning_end`. -/
-def enterFin (s : LState) : LState × Call := ({ s with pc := .finTuningEnd }, .cb .tuningEnd)
-
-/-- an exception raised inside the loop. -/
-def raiseFin (s : LState) (e : Raised) : LState × Call := enterFin { s with err := some e }
+/-- an exception raised inside the loop: the `finally` block starts (callbacks' `on_tuning_end`;
+`print_best_metric_found` before it only prints). -/
+def raiseFin (s : LState) (e : Raised) : LState := { s with err := some e, pc := .finTuningEnd }
 
 /-- an exception raised inside the `finally` block replaces whatever was in flight. -/
-def exitRaise (s : LState) : LState × Call := exitNow { s with err := some .env }
+def exitRaise (s : LState) : LState := { s with err := some .env, pc := .done }
 
-/-! ### loop head and stopping test -/
+/-- `_stop_condition()` given the clock reading. -/
+def stopCond (s : LState) (clock : Rat) : Bool :=
+  s.cfg.crit.eval s.status clock s.cfg.keyCost || decide (s.cfg.maxFailures < s.status.numFailed)
 
-/-- the `while` condition. -/
-def loopHead (s : LState) : LState × Call :=
-  if !s.stopReached || (s.cfg.wait && !s.running.isEmpty) then
-    ({ s with pc := .loopStart }, .cb .loopStart)
-  else enterFin s
-
-/-- `_stop_condition()` once the clock (if needed) has been read. -/
-def finishStop (s : LState) (clock : Rat) : LState × Call :=
-  let b := s.cfg.crit.eval s.status clock s.cfg.keyCost || decide (s.cfg.maxFailures < s.status.numFailed)
-  loopHead { s with stopReached := b }
-
-def evalStop (s : LState) : LState × Call :=
-  if s.cfg.crit.maxWallclock.isSome then ({ s with pc := .clock }, .clock) else finishStop s 0
-
-/-! ### end of an iteration -/
-
-def toLoopEnd (s : LState) : LState × Call := ({ s with pc := .loopEnd }, .cb .loopEnd)
-
-/-- `RemoveCheckpointsCallback.on_loop_end`: delete what the scheduler named. -/
-def delNext (s : LState) : LState × Call :=
-  match s.dels with
-  | [] => evalStop s
-  | t :: rest => ({ s with pc := .delRem, t := t, dels := rest }, .delete t)
-
-/-! ### `_schedule_new_tasks` -/
+def threshold (c : Cfg) : Nat := if c.async then c.nWorkers else 1
 
 /-- the set new trials are added to: the rebound local one, else the caller's. -/
 def addRunning (s : LState) (t : Nat) : LState :=
@@ -263,77 +268,20 @@ def addRunning (s : LState) (t : Nat) : LState :=
   | some l => { s with loc := some (sadd t l) }
   | none => { s with running := sadd t s.running }
 
-/-- next round of `for _ in range(self.n_workers - num_busy_workers)`. -/
-def suggestNext (s : LState) : LState × Call :=
-  match s.k with
-  | 0 => toLoopEnd { s with loc := none }
-  | _ + 1 => ({ s with pc := .suggest }, .suggest s.nStarted)
-
-def threshold (c : Cfg) : Nat := if c.async then c.nWorkers else 1
-
-def scheduleNew (s : LState) : LState × Call :=
-  if s.cfg.swd then
-    if threshold s.cfg ≤ s.running.length then ({ s with pc := .sleepSched }, .cb .sleep)
-    else suggestNext { s with k := s.cfg.nWorkers - s.running.length, loc := none }
-  else ({ s with pc := .busy }, .busy)
-
 /-- after `backend.start_trial` has registered the new trial. -/
-def started (s : LState) : LState × Call :=
-  ({ s with pc := .addS, nStarted := s.nStarted + 1, configs := aset s.sId s.sCfg s.configs,
-            bst := aset s.sId .inProgress s.bst, kst := aset s.sId .live s.kst }, .schedAdd s.sId)
+def started (s : LState) : LState :=
+  { s with pc := .addS, nStarted := s.nStarted + 1, configs := aset s.sId s.sCfg s.configs,
+           bst := aset s.sId .inProgress s.bst }
 
 /-- `running_trials_ids.add(trial_id)`; `tuning_status.update({trial_id: in_progress}, [])`. -/
-def scheduled (s : LState) (t : Nat) : LState × Call :=
+def scheduled (s : LState) (t : Nat) : LState :=
   let s1 := addRunning s t
-  suggestNext { s1 with k := s1.k - 1, status := s1.status.update [(t, .inProgress)] [] }
+  { s1 with k := s1.k - 1, status := s1.status.update [(t, .inProgress)] [], pc := .suggestNext }
 
-/-! ### `_process_new_results`, second half -/
-
-/-- after `_update_running_trials`: `trial_status_dict.update(done)`, `tuning_status.update`,
-`done_trials_statuses.update`, `running_trials_ids.difference_update`, then the branch of `run`. -/
-def afterUpdate (s : LState) : LState × Call :=
-  let sd' := aupdate s.sd s.done
-  let s1 := { s with
-    status := s.status.update sd' (s.allRes.map fun r => (r.tid, r.m))
-    doneAll := aupdate s.doneAll s.done
-    running := s.running.filter (fun t => !hasKey t s.done) }
-  if s1.exhausted || (s1.cfg.wait && s1.stopReached) then
-    if !s1.running.isEmpty then ({ s1 with pc := .sleepWait }, .cb .sleep)
-    else enterFin s1     -- `break`
-  else scheduleNew s1
-
-/-- the loop `for trial_id, (trial, status) in trial_status_dict.items()` from `items` on. -/
-def secondLoop (s : LState) : List (Nat × St) → LState × Call
-  | [] => afterUpdate s
-  | (t, st) :: rest =>
-    match st with
-    | .completed =>
-      let st' := if alookup t s.done = some St.paused then St.paused else St.completed
-      match alookup t s.lastSeen with
-      | none => ({ s with pc := .stdoutNM, t := t, items := rest }, .stdout t)
-      | some rid =>
-        if !hasKey t s.done then
-          ({ s with pc := .completeS, t := t, tSt := st', tRid := rid, items := rest }, .schedComplete t rid)
-        else if st' = .completed then
-          ({ s with pc := .completeCb, t := t, tSt := st', tRid := rid, items := rest }, .cb (.complete t rid))
-        else secondLoop { s with done := aset t st' s.done } rest
-    | .failed => ({ s with pc := .errorS, t := t, tSt := .failed, items := rest }, .schedError t)
-    | .stopped =>
-      if t ∈ s.schedStopped then secondLoop s rest
-      else ({ s with pc := .errorS, t := t, tSt := .stopped, items := rest }, .schedError t)
-    | _ => secondLoop s rest
-
-/-- the loop `for trial_id, result in new_results` from `rest` on. -/
-def nextResult (s : LState) : List Res → LState × Call
-  | [] => secondLoop { s with rest := [] } s.sd
-  | r :: rest =>
-    if hasKey r.tid s.done then nextResult s rest
-    else
-      match alookup r.tid s.sd with
-      | none => raiseFin { s with rest := rest } .keyError
-      | some st =>
-        ({ s with pc := .decision, cur := r, curSt := st, rest := rest,
-                  lastSeen := aset r.tid r.rid s.lastSeen }, .schedResult r.tid r.rid)
+/-- first trial of `done_trials_statuses` with status failed (`_handle_failure`). -/
+def firstFailed : List (Nat × St) → Option Nat
+  | [] => none
+  | (t, st) :: xs => if st = .failed then some t else firstFailed xs
 
 /-- the scheduler changed the result dict it was handed (e.g. `HyperbandScheduler` adds the total cost). -/
 def Res.withMetrics (r : Res) (m : Metrics) : Res := { tid := r.tid, rid := r.rid, m := m }
@@ -341,182 +289,253 @@ def Res.withMetrics (r : Res) (m : Metrics) : Res := { tid := r.tid, rid := r.ri
 def setMetrics (rid : Nat) (m : Metrics) (l : List Res) : List Res :=
   l.map (fun r => if r.rid = rid then r.withMetrics m else r)
 
-/-! ### the machine -/
+/-- `StoreResultsCallback.on_trial_result`. -/
+def addRow (s : LState) : LState :=
+  if s.cfg.store then
+    { s with rows := s.rows ++ [{ tid := s.cur.tid, rid := s.cur.rid, cfg := alookup s.cur.tid s.configs,
+                                  decision := s.curD, status := s.curSt, m := s.cur.m }] }
+  else s
 
-def stepCore (s : LState) (a : Ans) : LState × Call :=
+/-- one iteration of `for trial_id, (trial, status) in trial_status_dict.items()` for the item
+`(t, st)`; `rest` are the remaining items. -/
+def secondItem (s : LState) (t : Nat) (st : St) (rest : List (Nat × St)) : LState :=
+  match st with
+  | .completed =>
+    let st' := if alookup t s.done = some St.paused then St.paused else St.completed
+    match alookup t s.lastSeen with
+    | none => { s with pc := .stdoutNM, t := t, items := rest }
+    | some rid =>
+      if !hasKey t s.done then { s with pc := .completeS, t := t, tSt := st', tRid := rid, items := rest }
+      else if st' = .completed then { s with pc := .completeCb, t := t, tSt := st', tRid := rid, items := rest }
+      else { s with done := aset t st' s.done, items := rest }
+  | .failed => { s with pc := .errorS, t := t, tSt := .failed, items := rest }
+  | .stopped =>
+    if t ∈ s.schedStopped then { s with items := rest }
+    else { s with pc := .errorS, t := t, tSt := .stopped, items := rest }
+  | _ => { s with items := rest }
+
+/-- after `_update_running_trials`: `trial_status_dict.update(done)`, `tuning_status.update`,
+`done_trials_statuses.update`, `running_trials_ids.difference_update`, then the branch of `run`. -/
+def afterUpdate (s : LState) : LState :=
+  let running' := s.running.filter (fun t => !hasKey t s.done)
+  { s with
+    status := s.status.update (aupdate s.sd s.done) (s.allRes.map fun r => (r.tid, r.m))
+    doneAll := aupdate s.doneAll s.done
+    running := running'
+    pc := if s.exhausted || (s.cfg.wait && s.stopReached) then
+            (if !running'.isEmpty then .sleepWait else .finTuningEnd)   -- `_sleep()` / `break`
+          else .schedNew }
+
+/-- the machine: one transition. -/
+def next (s : LState) (a : Ans) : LState :=
   match s.pc with
   | .tuningStart => match a with
-    | .ret => evalStop s
+    | .ret => { s with pc := .evalStop }
     | _ => raiseFin s .env
+  | .evalStop =>
+    if s.cfg.crit.maxWallclock.isSome then { s with pc := .clock }
+    else { s with stopReached := stopCond s 0, pc := .loopHead }
   | .clock => match a with
-    | .clock t => finishStop s t
+    | .clock t => { s with stopReached := stopCond s t, pc := .loopHead }
     | _ => raiseFin s .env
+  | .loopHead =>
+    if !s.stopReached || (s.cfg.wait && !s.running.isEmpty) then { s with pc := .loopStart }
+    else { s with pc := .finTuningEnd }
   | .loopStart => match a with
-    | .ret => ({ s with pc := .fetch }, .fetch s.running)
+    | .ret => { s with pc := .fetch }
     | _ => raiseFin s .env
   | .fetch => match a with
     | .poll sd res =>
-      ({ s with pc := .cbFetch, sd := sd, allRes := res, rest := res, done := [],
-                bst := aupdate s.bst sd }, .cb .fetch)
+      { s with pc := .cbFetch, sd := sd, allRes := res, rest := res, done := [], bst := aupdate s.bst sd }
     | _ => raiseFin s .env
   | .cbFetch => match a with
-    | .ret => if s.running.length ≤ s.cfg.nWorkers then nextResult s s.rest else raiseFin s .assertion
+    | .ret => if s.running.length ≤ s.cfg.nWorkers then { s with pc := .nextRes } else raiseFin s .assertion
     | _ => raiseFin s .env
+  | .nextRes =>
+    match s.rest with
+    | [] => { s with pc := .second, items := s.sd }
+    | r :: rest =>
+      if hasKey r.tid s.done then { s with rest := rest }
+      else
+        match alookup r.tid s.sd with
+        | none => raiseFin { s with rest := rest } .keyError
+        | some st =>
+          { s with pc := .decision, cur := r, curSt := st, rest := rest, lastSeen := aset r.tid r.rid s.lastSeen }
   | .decision => match a with
     | .decision d m =>
-      let s1 := match m with
-        | some m' => { s with cur := s.cur.withMetrics m', allRes := setMetrics s.cur.rid m' s.allRes }
-        | none => s
-      ({ s1 with pc := .cbResult, curD := d }, .cb (.result s1.cur.tid s1.cur.rid d s1.curSt))
+      match m with
+      | some m' => { s with pc := .cbResult, curD := d, cur := s.cur.withMetrics m',
+                            allRes := setMetrics s.cur.rid m' s.allRes }
+      | none => { s with pc := .cbResult, curD := d }
     | _ => raiseFin s .env
   | .cbResult => match a with
     | .ret =>
-      let s1 := if s.cfg.store then
-          { s with rows := s.rows ++ [{ tid := s.cur.tid, rid := s.cur.rid, cfg := alookup s.cur.tid s.configs,
-                                        decision := s.curD, status := s.curSt }] }
-        else s
-      match s1.curD with
-      | .stop =>
-        if s1.curSt ≠ .completed then ({ s1 with pc := .stopCmd }, .stop s1.cur.tid)
-        else ({ s1 with pc := .removeS }, .schedRemove s1.cur.tid)
-      | .pause => ({ s1 with pc := .pauseCmd }, .pause s1.cur.tid)
-      | .continue => nextResult s1 s1.rest
+      match s.curD with
+      | .stop => { addRow s with pc := if s.curSt ≠ .completed then .stopCmd else .removeS }
+      | .pause => { addRow s with pc := .pauseCmd }
+      | .continue => { addRow s with pc := .nextRes }
     | _ => raiseFin s .env
   | .stopCmd => match a with
-    | .ret =>
-      let s1 := { s with curSt := .stopped, bst := aset s.cur.tid .stopped s.bst }
-      if s1.cfg.deleteCkpt then ({ s1 with pc := .stopDel }, .delete s1.cur.tid)
-      else ({ s1 with pc := .removeS }, .schedRemove s1.cur.tid)
+    | .ret => { s with curSt := .stopped, bst := aset s.cur.tid .stopped s.bst,
+                       pc := if s.cfg.deleteCkpt then .stopDel else .removeS }
     | _ => raiseFin s .env
   | .stopDel => match a with
-    | .ret => ({ s with pc := .removeS, deleted := s.cur.tid :: s.deleted }, .schedRemove s.cur.tid)
+    | .ret => { s with pc := .removeS, deleted := s.cur.tid :: s.deleted }
     | _ => raiseFin s .env
   | .removeS => match a with
-    | .ret =>
-      nextResult { s with done := aset s.cur.tid s.curSt s.done, schedStopped := sadd s.cur.tid s.schedStopped,
-                          kst := aset s.cur.tid .dead s.kst } s.rest
+    | .ret => { s with pc := .nextRes, done := aset s.cur.tid s.curSt s.done,
+                       schedStopped := sadd s.cur.tid s.schedStopped, kst := aset s.cur.tid .dead s.kst }
     | _ => raiseFin s .env
   | .pauseCmd => match a with
-    | .ret => ({ s with pc := .removeP, bst := aset s.cur.tid .paused s.bst }, .schedRemove s.cur.tid)
+    | .ret => { s with pc := .removeP, bst := aset s.cur.tid .paused s.bst }
     | _ => raiseFin s .env
   | .removeP => match a with
-    | .ret => nextResult { s with done := aset s.cur.tid .paused s.done, kst := aset s.cur.tid .paused s.kst } s.rest
+    | .ret => { s with pc := .nextRes, done := aset s.cur.tid .paused s.done, kst := aset s.cur.tid .paused s.kst }
     | _ => raiseFin s .env
+  | .second =>
+    match s.items with
+    | [] => { s with pc := .afterUpd }
+    | (t, st) :: rest => secondItem s t st rest
   | .stdoutNM => match a with
-    | .ret => ({ s with pc := .stderrNM }, .stderr s.t)
+    | .ret => { s with pc := .stderrNM }
     | _ => raiseFin s .env
   | .stderrNM => match a with
     | .ret => raiseFin s (.noMetrics s.t)
     | _ => raiseFin s .env
   | .completeS => match a with
     | .ret =>
-      let s1 := { s with kst := aset s.t .dead s.kst }
-      if s1.tSt = .completed then ({ s1 with pc := .completeCb }, .cb (.complete s1.t s1.tRid))
-      else secondLoop { s1 with done := aset s1.t s1.tSt s1.done } s1.items
+      if s.tSt = .completed then { s with pc := .completeCb, kst := aset s.t .dead s.kst }
+      else { s with pc := .second, kst := aset s.t .dead s.kst, done := aset s.t s.tSt s.done }
     | _ => raiseFin s .env
   | .completeCb => match a with
-    | .ret => secondLoop { s with done := aset s.t s.tSt s.done } s.items
+    | .ret => { s with pc := .second, done := aset s.t s.tSt s.done }
     | _ => raiseFin s .env
   | .errorS => match a with
-    | .ret => secondLoop { s with done := aset s.t s.tSt s.done, kst := aset s.t .dead s.kst } s.items
+    | .ret => { s with pc := .second, done := aset s.t s.tSt s.done, kst := aset s.t .dead s.kst }
     | _ => raiseFin s .env
+  | .afterUpd => afterUpdate s
   | .sleepWait => match a with
-    | .ret => toLoopEnd s
+    | .ret => { s with pc := .loopEnd }
     | _ => raiseFin s .env
+  | .schedNew =>
+    if s.cfg.swd then
+      if threshold s.cfg ≤ s.running.length then { s with pc := .sleepSched }
+      else { s with k := s.cfg.nWorkers - s.running.length, loc := none, pc := .suggestNext }
+    else { s with pc := .busy }
   | .busy => match a with
     | .ids l =>
-      if threshold s.cfg ≤ l.length then ({ s with pc := .sleepSched }, .cb .sleep)
-      else
-        suggestNext { s with k := s.cfg.nWorkers - l.length,
-                             loc := if l.length < s.running.length then some (dedup l) else none }
+      if threshold s.cfg ≤ l.length then { s with pc := .sleepSched }
+      else { s with k := s.cfg.nWorkers - l.length,
+                    loc := if l.length < s.running.length then some (dedup l) else none,   -- the REBINDING (F15)
+                    pc := .suggestNext }
     | _ => raiseFin s .env
   | .sleepSched => match a with
-    | .ret => toLoopEnd s
+    | .ret => { s with pc := .loopEnd }
     | _ => raiseFin s .env
+  | .suggestNext =>
+    match s.k with
+    | 0 => { s with loc := none, pc := .loopEnd }
+    | _ + 1 => { s with pc := .suggest }
   | .suggest => match a with
-    | .sugg .none => toLoopEnd { s with exhausted := true, loc := none }   -- `StopIteration`
-    | .sugg (.start cfg ckpt) =>
-      ({ s with pc := .startCmd, sId := s.nStarted, sCfg := cfg, sCkpt := ckpt }, .start s.nStarted cfg ckpt)
-    | .sugg (.resume id cfg) =>
-      ({ s with pc := .resumeCmd, sId := id, sRCfg := cfg }, .resume id cfg)
+    | .sugg .none => { s with exhausted := true, loc := none, pc := .loopEnd }   -- `StopIteration`
+    | .sugg (.start cfg ckpt) => { s with pc := .startCmd, sId := s.nStarted, sCfg := cfg, sCkpt := ckpt }
+    | .sugg (.resume id cfg) => { s with pc := .resumeCmd, sId := id, sRCfg := cfg }
     | _ => raiseFin s .env
   | .startCmd => match a with
-    | .ret =>
-      match s.sCkpt with
-      | some src => ({ s with pc := .copyCmd }, .copy src s.sId)
-      | none => started s
+    | .ret => if s.sCkpt.isSome then { s with pc := .copyCmd } else started s
     | _ => raiseFin s .env
   | .copyCmd => match a with
     | .ret => started s
     | _ => raiseFin s .env
   | .addS => match a with
-    | .ret => ({ s with pc := .startCb }, .cb (.start s.sId))
+    | .ret => { s with pc := .startCb, kst := aset s.sId .live s.kst }
     | _ => raiseFin s .env
   | .startCb => match a with
     | .ret => scheduled s s.sId
     | _ => raiseFin s .env
   | .resumeCmd => match a with
     | .ret =>
-      ({ s with pc := .resumeCb,
-                configs := (match s.sRCfg with | some c => aset s.sId c s.configs | none => s.configs),
-                bst := aset s.sId .inProgress s.bst, kst := aset s.sId .live s.kst }, .cb (.resume s.sId))
+      { s with pc := .resumeCb,
+               configs := (match s.sRCfg with | some c => aset s.sId c s.configs | none => s.configs),
+               bst := aset s.sId .inProgress s.bst, kst := aset s.sId .live s.kst }
     | _ => raiseFin s .env
   | .resumeCb => match a with
     | .ret => scheduled s s.sId
     | _ => raiseFin s .env
   | .loopEnd => match a with
-    | .ret => if s.cfg.ckptCb then ({ s with pc := .removable }, .removable) else evalStop s
+    | .ret => if s.cfg.ckptCb then { s with pc := .removable } else { s with pc := .evalStop }
     | _ => raiseFin s .env
   | .removable => match a with
-    | .ids l => delNext { s with dels := l, removableSaid := l ++ s.removableSaid }
+    | .ids l => { s with dels := l, removableSaid := l ++ s.removableSaid, pc := .delNext }
     | _ => raiseFin s .env
+  | .delNext =>
+    match s.dels with
+    | [] => { s with pc := .evalStop }
+    | t :: rest => { s with pc := .delRem, t := t, dels := rest }
   | .delRem => match a with
-    | .ret => delNext { s with deleted := s.t :: s.deleted }
+    | .ret => { s with pc := .delNext, deleted := s.t :: s.deleted }
     | _ => raiseFin s .env
   -- the `finally` block
   | .finTuningEnd => match a with
-    | .ret => ({ s with pc := .finAll, stored := if s.cfg.store then some s.rows else none }, .allResults)
+    | .ret => { s with pc := .finAll, stored := if s.cfg.store then some s.rows else none }
     | _ => exitRaise s
   | .finAll => match a with
-    | .ids l => finStatusNext { s with dels := l, visible := l }
+    | .ids l => { s with dels := l, visible := l, pc := .finStatusNext }
     | _ => exitRaise s
+  | .finStatusNext =>
+    match s.dels with
+    | [] => { s with pc := .finDelAll }
+    | t :: rest => { s with pc := .finStatus, t := t, dels := rest }
   | .finStatus => match a with
-    | .status st =>
-      let s1 := { s with bst := aset s.t st s.bst }
-      if st = .inProgress then ({ s1 with pc := .finStop }, .stop s1.t) else finStatusNext s1
+    | .status st => { s with bst := aset s.t st s.bst, pc := if st = .inProgress then .finStop else .finStatusNext }
     | _ => exitRaise s
   | .finStop => match a with
-    | .ret =>
-      let s1 := { s with bst := aset s.t .stopped s.bst }
-      if s1.cfg.deleteCkpt then ({ s1 with pc := .finStopDel }, .delete s1.t) else finStatusNext s1
+    | .ret => { s with bst := aset s.t .stopped s.bst, pc := if s.cfg.deleteCkpt then .finStopDel else .finStatusNext }
     | _ => exitRaise s
   | .finStopDel => match a with
-    | .ret => finStatusNext { s with deleted := s.t :: s.deleted }
+    | .ret => { s with pc := .finStatusNext, deleted := s.t :: s.deleted }
     | _ => exitRaise s
+  | .finDelAll =>
+    if s.cfg.deleteCkpt then { s with dels := List.range s.nStarted, pc := .finDelNext } else { s with pc := .finMark }
+  | .finDelNext =>
+    match s.dels with
+    | [] => { s with pc := .finMark }
+    | t :: rest => { s with pc := .finDel, t := t, dels := rest }
   | .finDel => match a with
-    | .ret => finDelNext { s with deleted := s.t :: s.deleted }
+    | .ret => { s with pc := .finDelNext, deleted := s.t :: s.deleted }
     | _ => exitRaise s
+  | .finMark =>
+    let st := s.status.markStopped
+    if s.cfg.maxFailures < st.numFailed then
+      match firstFailed s.doneAll with
+      | some t => { s with status := st, pc := .hfOut, t := t }
+      | none => { s with status := st, pc := .done }
+    else { s with status := st, pc := .done }
   | .hfOut => match a with
-    | .ret => ({ s with pc := .hfErr }, .stderr s.t)
+    | .ret => { s with pc := .hfErr }
     | _ => exitRaise s
   | .hfErr => match a with
-    | .ret => exitNow { s with err := some (.failed s.t) }
+    | .ret => { s with err := some (.failed s.t), pc := .done }
     | _ => exitRaise s
-  | .done => (s, .exit)
+  | .done => s
 
-/-- one step: the environment answers the pending call, the loop runs up to its next call
-(which is appended to the ghost log). -/
-def step (s : LState) (a : Ans) : LState × Call :=
-  let r := stepCore s a
-  ({ r.1 with log := r.1.log ++ [r.2] }, r.2)
+/-- is the control point silent? -/
+def Pc.silent : Pc → Bool
+  | .evalStop | .loopHead | .nextRes | .second | .afterUpd | .schedNew | .suggestNext | .delNext
+  | .finStatusNext | .finDelAll | .finDelNext | .finMark => true
+  | _ => false
+
+/-- one step; a call that becomes pending is appended to the ghost log. -/
+def step (s : LState) (a : Ans) : LState :=
+  let s' := next s a
+  if s'.pc.silent || s.pc = .done then s' else { s' with log := s'.log ++ [pending s'] }
 
 /-- `Tuner.run()` up to its first call, `callback.on_tuning_start`. -/
-def init (c : Cfg) : LState × Call :=
-  ({ cfg := c, pc := .tuningStart, log := [.cb .tuningStart] }, .cb .tuningStart)
+def init (c : Cfg) : LState := { cfg := c, pc := .tuningStart, log := [.cb .tuningStart] }
 
-/-- the state after a sequence of answers. -/
+/-- the state after a sequence of answers (answers fed to silent steps are ignored). -/
 def run (s : LState) : List Ans → LState
   | [] => s
-  | a :: as => run (step s a).1 as
+  | a :: as => run (step s a) as
 
 end SyneTune.Tuner
